@@ -680,6 +680,27 @@ def evaluate(case, d, r, cpu, mem_kb):
     return fails, classes
 
 
+def _neighbours():
+    from spyne import Application, rpc, Service, Unicode
+    from spyne.protocol.xml import XmlDocument
+    from spyne.protocol.soap import Soap11, Soap12
+    from .. import drive
+    for name, cls in (("xml", XmlDocument), ("soap11", Soap11), ("soap12", Soap12)):
+        def echo(ctx, s):
+            return s
+        Svc = type("NbSvc", (Service,), {"echo": rpc(Unicode, _args=["s"], _returns=Unicode)(echo)})
+        tns = "urn:c17:neighbour:%s" % name
+        app = Application([Svc], tns=tns, name="C17Nb_%s" % name,
+                          in_protocol=cls(resolve_entities=True, load_dtd=True, huge_tree=True),
+                          out_protocol=cls())
+        body = '<echo xmlns="%s"><s>&e;</s></echo>' % tns
+        if name != "xml":
+            ns = NS_ENV[name]
+            body = '<e:Envelope xmlns:e="%s"><e:Body>%s</e:Body></e:Envelope>' % (ns, body)
+        doc = '<!DOCTYPE x [<!ENTITY e "neighbour">]>' + body
+        drive.server_call(app, doc.encode())
+
+
 def _child_main(batch_path, out_path):
     import resource
     from .. import env
@@ -712,6 +733,13 @@ def _child_main(batch_path, out_path):
     s.close()
     mark("ctlend")
     emit("C", {"ctl": ctl, "pid": os.getpid()})
+
+    # NEIGHBOURS: other applications of the same process have opted in to the unsafe parser
+    # options (a documented constructor choice) and served a request before the
+    # default-configured applications under test are even built; the defaults of the latter
+    # must not depend on that history
+    _neighbours()
+    emit("N", {"neighbours": True})
 
     apps = _Apps()
     # calibrate the services: the unmodified base requests are answered normally
